@@ -35,7 +35,8 @@ GL_FLAGS = [('GE', G.GLOBSTAR | G.EXTGLOB), ('G', G.GLOBSTAR), ('GENS', G.GLOBST
             ('GEOK', G.GLOBSTAR | G.EXTGLOB | G.NODIR), ('GEP', G.GLOBSTAR | G.EXTGLOB | G.REALPATH),
             ('GET', G.GLOBSTAR | G.EXTGLOB | G.GLOBTILDE), ('GER', G.GLOBSTAR | G.EXTGLOB | G.RAWCHARS),
             ('GEWC', G.GLOBSTAR | G.EXTGLOB | G.FORCEWIN | G.CASE),
-            ('GENP', G.GLOBSTAR | G.EXTGLOB | G.NEGATE | G.REALPATH)]
+            ('GENP', G.GLOBSTAR | G.EXTGLOB | G.NEGATE | G.REALPATH),
+            ('GEWO', G.GLOBSTAR | G.EXTGLOB | G.FORCEWIN | G.NODIR)]
 
 
 def enc(x, b):
